@@ -188,20 +188,27 @@ class FV:
 
     @staticmethod
     def _substitute(term: ast.AST, mapping: Dict[str, ast.AST], prefix: str) -> ast.AST:
-        class S(ast.NodeTransformer):
-            def visit_Name(self, n: ast.Name):
-                if n.id in mapping:
-                    return copy.deepcopy(mapping[n.id])
+        # resolved terms share sub-objects (the resolver hands out cached nodes): rebuild functionally, never in place
+        def rebuild(n):
+            if isinstance(n, list):
+                return [rebuild(x) for x in n]
+            if not isinstance(n, ast.AST):
                 return n
+            if isinstance(n, ast.Name) and n.id in mapping:
+                return copy.deepcopy(mapping[n.id])
+            new = type(n)()
+            for fld in n._fields:
+                if hasattr(n, fld):
+                    setattr(new, fld, rebuild(getattr(n, fld)))
+            for at_ in ("lineno", "col_offset", "end_lineno", "end_col_offset"):
+                if hasattr(n, at_):
+                    setattr(new, at_, getattr(n, at_))
+            if isinstance(new, ast.Call) and isinstance(new.func, ast.Name) and new.func.id.startswith("§"):
+                new.args = [ast.Constant(value=f"{prefix}:{a.value}") if isinstance(a, ast.Constant) and isinstance(a.value, (str, int)) and not isinstance(a.value, bool) and (
+                    isinstance(a.value, int) or a.value.startswith(("loop@", "comp@"))) and new.func.id in ("§elem", "§idx", "§key", "§val", "§def", "§mut", "§rec") else a for a in new.args]
+            return new
 
-            def visit_Call(self, n: ast.Call):
-                n = self.generic_visit(n)
-                if isinstance(n.func, ast.Name) and n.func.id.startswith("§"):
-                    n.args = [ast.Constant(value=f"{prefix}:{a.value}") if isinstance(a, ast.Constant) and isinstance(a.value, (str, int)) and not isinstance(a.value, bool) and (
-                        isinstance(a.value, int) or a.value.startswith(("loop@", "comp@"))) and n.func.id in ("§elem", "§idx", "§key", "§val", "§def", "§mut", "§rec") else a for a in n.args]
-                return n
-
-        out = S().visit(copy.deepcopy(term))
+        out = rebuild(term)
 
         class N(ast.NodeTransformer):
             # §norm(base, variants...) : after substitution the base must be re-derived from the variants
